@@ -427,6 +427,99 @@ def summary_ref(roles, flat):
 SUMMARY_FIELDS = ["compiler", "compiler_version", "min_api", "class_count", "method_count"]
 
 
+def summary_query_form(fx, rep, p):
+    """The summary as five independent queries over the record stream instead of one fold:
+         class_count / method_count = iter().flatten().filter(is Class / is Method).count()
+         compiler / compiler_version = iter().flatten().filter_map(|r| Header with that key => Some(value)).last().flatten()
+         min_api = <the same query for "min_api">.and_then(|v| v.parse().ok())
+       The fold assigns at every matching header and the last assignment stands; `last()` of the matching headers' values is that
+       value (None when there is none), and only the value that stands is parsed. Returns True if the body has this form."""
+    b = fx.bodies[p]
+    nxt = set(A.method(fx, "mapping::ProguardRecordIter", "next", trait="Iterator"))
+    sy = S.Sym(fx, inline_mut=True, opaque=lambda q: q in nxt)
+    try:
+        res = sy.eval_body(b)
+    except S.Undecidable:
+        return False
+    if sy.loop_order or not res or any(st.effects for st, o in res):
+        return False
+    if not all(o[0] == S.VAL and o[1][0] == "adt" and o[1][1] == "MappingSummary" for st, o in res):
+        return False
+    mparam = [prm["pat"]["name"] for prm in b["params"] if prm.get("pat")][0]
+    drv = ("call", "std::iter::Iterator::flatten", (iter_term(("in", mparam)),))
+    first = dict(res[0][1][1][3])
+    cc, mc = first.get("class_count"), first.get("method_count")
+
+    def is_count(t):
+        return t is not None and t[0] == "call" and t[1].endswith("Iterator::count") and len(t[2]) == 1 and t[2][0][0] == "call" \
+            and t[2][0][1].endswith("Iterator::filter") and len(t[2][0][2]) == 2 and t[2][0][2][0] == drv and t[2][0][2][1][0] in ("closure", "fnref")
+
+    def last_query(t):
+        """(closure) of `flatten(last(filter_map(drv, closure)))`, else None"""
+        if t is not None and t[0] == "call" and t[1] == "std::option::Option::flatten" and len(t[2]) == 1 and t[2][0][0] == "call" \
+                and t[2][0][1].endswith("Iterator::last") and len(t[2][0][2]) == 1:
+            fm = t[2][0][2][0]
+            if fm[0] == "call" and fm[1].endswith("Iterator::filter_map") and len(fm[2]) == 2 and fm[2][0] == drv and fm[2][1][0] == "closure":
+                return fm[2][1]
+        return None
+    if not (is_count(cc) and is_count(mc) and last_query(first.get("compiler")) and last_query(first.get("compiler_version"))):
+        return False
+    rep.fn(p)
+    import models as M_
+    x = ("bound", 0)
+    loc = F.short_file(b["sp"])
+    ok = True
+    for fld, var in (("class_count", "Class"), ("method_count", "Method")):
+        same = all(dict(o[1][3]).get(fld) == first[fld] for st, o in res)
+        try:
+            pt = M_.closure_term(sy, first[fld][2][0][2][1], 1, S.St(), {"sp": "?"})
+            good = same and pred_equals(pt, lambda o, var=var: TRUE if o(("is", x, var)) else FALSE)
+        except S.Undecidable:
+            good = False
+        ok = ok and good
+        rep.check("C19.2", "C19.2/summary/query/%s" % fld, good, loc=loc, found=S.tstr(first[fld])[:200],
+                  expected="number of %s records among all Ok records of the whole stream" % var)
+    hk, hv = mk_payload(x, "Header", "key"), mk_payload(x, "Header", "value")
+
+    def header_query(t, key):
+        clo = last_query(t)
+        if clo is None:
+            return False
+        try:
+            pt = M_.closure_term(sy, clo, 1, S.St(), {"sp": "?"})
+        except S.Undecidable:
+            return False
+        return pred_equals(pt, lambda o: some(hv) if (o(("is", x, "Header")) and o(("eq", hk, ("lit", "str", key)))) else NONE)
+    for fld in ("compiler", "compiler_version"):
+        same = all(dict(o[1][3]).get(fld) == first[fld] for st, o in res)
+        good = same and header_query(first[fld], fld)
+        ok = ok and good
+        rep.check("C19.2", "C19.2/summary/query/%s" % fld, good, loc=loc, found=S.tstr(first[fld])[:200],
+                  expected="value of the last `%s` header of the whole stream (None if there is none or it has no value)" % fld)
+    # min_api: the standing value, parsed
+    lq = None
+    for st, o in res:
+        for a_, p_ in st.conds:
+            if a_[0] == "is" and a_[2] == "Some" and last_query(a_[1]) is not None:
+                lq = a_[1]
+    good = lq is not None and header_query(lq, "min_api")
+    if good:
+        pr = ("call", "core::str::parse::<u32>", (mk_payload(lq, "Some", "0"),))
+
+        def ref(o):
+            if o(("is", lq, "Some")) and o(("is", pr, "Ok")):
+                return some(mk_payload(pr, "Ok", "0"))
+            return NONE
+        bad, n = fc.compare_paths(res, ref, lambda st, out: dict(out[1][3]).get("min_api"))
+        good = not bad
+    ok = ok and good
+    rep.check("C19.2", "C19.2/summary/query/min_api", good, loc=loc, found=[S.tstr(dict(o[1][3]).get("min_api"))[:120] for st, o in res][:3],
+              expected="the last `min_api` header's value parsed as u32 (None if absent, value-less or not a number)")
+    rep.ok("C19.2", "C19.2/summary/driver", loc=loc, found="five queries, each over %s" % S.tstr(drv), nontrivial=False)
+    rep.ok("C19.2", "C19.2/summary/initial-values", loc=loc, found="no accumulators: count() starts at 0, last() at None", nontrivial=False)
+    return True
+
+
 def summary_fold_form(fx, rep, p):
     """`mapping.iter().fold(<empty summary>, |acc, item| <acc with one record accounted for>)`: the closure applied to a symbolic
     accumulator gives, per path, the new summary; a field that is `acc.field` is untouched, `acc.field + 1` is an increment,
@@ -592,6 +685,8 @@ def run(ctx, rep):
     cands = A.method(fx, "mapping::MappingSummary", "new")
     p = A.one(rep, "C19.2", "MappingSummary::new", cands)
     if p and summary_fold_form(fx, rep, p):
+        p = None
+    if p and summary_query_form(fx, rep, p):
         p = None
     if p:
         r = loop_of(fx, rep, "C19.2", "C19.2/summary", p)
